@@ -696,6 +696,17 @@ fn main() {
         let res = match t[0] {
             "ENC" => do_enc(id, &t),
             "DEC" => do_dec(id, &t),
+            "UNREG" | "REG" => {
+                // the application changes the checksum registry between messages
+                if t.len() > 2 {
+                    if t[0] == "REG" {
+                        binary_codec::checksum_restore(t[2]);
+                    } else {
+                        binary_codec::checksum_unregister(t[2]);
+                    }
+                }
+                format!("OK {}\n", id)
+            }
             other => format!("ERR {} unsupported command {}\n", id, other),
         };
         if out.write_all(res.as_bytes()).is_err() {
